@@ -60,13 +60,14 @@ VARIABLES
     pc, arg, wbuf,   \* per goroutine: control point, (tx, payload kind), uncommitted write set
     todo, fails, crashes, corrupts,
     tasks,    \* notifier goroutines: notifyNow executions in flight or scheduled
-    calls,    \* history: number of receiver invocations per (sub, tx)
+    calls,    \* history: set of (sub, tx) whose receiver was invoked at least once
+    recalled, \* history: (sub, tx) whose receiver was invoked after its completion had been recorded
     done,     \* history: completion recorded (job deleted by Finished)
     corrupted,\* pages whose xor leaf was corrupted and not yet repaired
     hist
 
-vars == <<disk, mem, lock, tmu, pc, arg, wbuf, todo, fails, crashes, corrupts, tasks, calls, done, corrupted, hist>>
-view == <<disk, mem, lock, tmu, pc, arg, wbuf, todo, fails, crashes, corrupts, tasks, calls, done, corrupted>>
+vars == <<disk, mem, lock, tmu, pc, arg, wbuf, todo, fails, crashes, corrupts, tasks, calls, recalled, done, corrupted, hist>>
+view == <<disk, mem, lock, tmu, pc, arg, wbuf, todo, fails, crashes, corrupts, tasks, calls, recalled, done, corrupted>>
 
 Log(e) == hist' = IF Hist THEN Append(hist, e) ELSE hist
 
@@ -83,7 +84,7 @@ Init ==
     /\ todo = [p \in Procs |-> MaxOffers]
     /\ fails = 0 /\ crashes = 0 /\ corrupts = 0
     /\ tasks = {}
-    /\ calls = [j \in Subs \X Tx |-> 0]
+    /\ calls = {} /\ recalled = {}
     /\ done = {}
     /\ corrupted = {}
     /\ hist = <<>>
@@ -109,14 +110,14 @@ Offer(p, t, pl) ==
     /\ arg' = [arg EXCEPT ![p] = [t |-> t, pl |-> pl]]
     /\ pc' = [pc EXCEPT ![p] = "read"]
     /\ Log([a |-> "Offer", p |-> p, t |-> t, pl |-> pl])
-    /\ UNCHANGED <<disk, mem, lock, tmu, wbuf, fails, crashes, corrupts, tasks, calls, done, corrupted>>
+    /\ UNCHANGED <<disk, mem, lock, tmu, wbuf, fails, crashes, corrupts, tasks, calls, recalled, done, corrupted>>
 
 \* bytes that do not parse never reach State.Add (network layer / API reject them)
 ParseReject(p, t) ==
     /\ pc[p] = "idle" /\ todo[p] > 0 /\ ~WF(t)
     /\ todo' = [todo EXCEPT ![p] = @ - 1]
     /\ Log([a |-> "ParseReject", p |-> p, t |-> t])
-    /\ UNCHANGED <<disk, mem, lock, tmu, pc, arg, wbuf, fails, crashes, corrupts, tasks, calls, done, corrupted>>
+    /\ UNCHANGED <<disk, mem, lock, tmu, pc, arg, wbuf, fails, crashes, corrupts, tasks, calls, recalled, done, corrupted>>
 
 \* db.Read: RLock is not granted while a writer holds the lock
 ReadVerify(p) ==
@@ -126,7 +127,7 @@ ReadVerify(p) ==
        IN /\ pc' = [pc EXCEPT ![p] = IF ok THEN "wlock" ELSE "idle"]
           /\ Log([a |-> "ReadVerify", p |-> p, t |-> t,
                   res |-> IF t \in disk.txs THEN "present" ELSE IF ok THEN "verified" ELSE "rejected"])
-    /\ UNCHANGED <<disk, mem, lock, tmu, arg, wbuf, todo, fails, crashes, corrupts, tasks, calls, done, corrupted>>
+    /\ UNCHANGED <<disk, mem, lock, tmu, arg, wbuf, todo, fails, crashes, corrupts, tasks, calls, recalled, done, corrupted>>
 
 NewJobs(t, evTypes) == {<<s, t>> : s \in {s \in Subs : SubType(s) \in evTypes /\ Selects(s, t)}}
 
@@ -163,7 +164,7 @@ LockWrite(p) ==
                /\ wbuf' = [wbuf EXCEPT ![p] = WithLeaf(d1, m2, Page(Lc(t)))]
                /\ pc' = [pc EXCEPT ![p] = "written"]
                /\ Log([a |-> "LockWrite", p |-> p, t |-> t, res |-> "written"])
-    /\ UNCHANGED <<disk, arg, todo, fails, crashes, corrupts, tasks, calls, done, corrupted>>
+    /\ UNCHANGED <<disk, arg, todo, fails, crashes, corrupts, tasks, calls, recalled, done, corrupted>>
 
 Commit(p) ==
     /\ pc[p] \in {"written", "noop"}
@@ -171,7 +172,7 @@ Commit(p) ==
     /\ tmu' = (IF tmu = p THEN None ELSE tmu)              \* AfterCommit(unlockTrees) is the first hook
     /\ pc' = [pc EXCEPT ![p] = IF pc[p] = "written" THEN "committed" ELSE "idle"]
     /\ Log([a |-> "Commit", p |-> p, t |-> arg[p].t])
-    /\ UNCHANGED <<mem, arg, wbuf, todo, fails, crashes, corrupts, tasks, calls, done, corrupted>>
+    /\ UNCHANGED <<mem, arg, wbuf, todo, fails, crashes, corrupts, tasks, calls, recalled, done, corrupted>>
 
 \* error from fn, cancelled context or failing bbolt commit: rollback, unlock, THEN the hook
 Rollback(p) ==
@@ -181,7 +182,7 @@ Rollback(p) ==
     /\ lock' = None /\ UNCHANGED tmu                       \* bbolt unlocks BEFORE the OnRollback hook runs
     /\ pc' = [pc EXCEPT ![p] = "rolledback"]
     /\ Log([a |-> "Rollback", p |-> p, t |-> arg[p].t])
-    /\ UNCHANGED <<disk, mem, arg, wbuf, todo, crashes, corrupts, tasks, calls, done, corrupted>>
+    /\ UNCHANGED <<disk, mem, arg, wbuf, todo, crashes, corrupts, tasks, calls, recalled, done, corrupted>>
 
 Load(d) == [xor |-> d.xor, iblt |-> d.iblt, lcHigh |-> d.lcHigh]
 
@@ -192,7 +193,7 @@ OnRollback(p) ==
     /\ tmu' = (IF tmu = p THEN None ELSE tmu) /\ UNCHANGED lock
     /\ pc' = [pc EXCEPT ![p] = "idle"]
     /\ Log([a |-> "OnRollback", p |-> p, t |-> arg[p].t])
-    /\ UNCHANGED <<disk, arg, wbuf, todo, fails, crashes, corrupts, tasks, calls, done, corrupted>>
+    /\ UNCHANGED <<disk, arg, wbuf, todo, fails, crashes, corrupts, tasks, calls, recalled, done, corrupted>>
 
 \* AfterCommit -> notify: one notifyNow per selecting subscriber ("first" tasks)
 FirstTasks(js) == {[s |-> j[1], t |-> j[2], att |-> Budget - 1, phase |-> "ready", res |-> "none"] : j \in js}
@@ -203,7 +204,7 @@ AfterCommit(p) ==
        IN tasks' = tasks \cup FirstTasks(NewJobs(t, evs))
     /\ pc' = [pc EXCEPT ![p] = "idle"]
     /\ Log([a |-> "AfterCommit", p |-> p, t |-> arg[p].t])
-    /\ UNCHANGED <<disk, mem, lock, tmu, arg, wbuf, todo, fails, crashes, corrupts, calls, done, corrupted>>
+    /\ UNCHANGED <<disk, mem, lock, tmu, arg, wbuf, todo, fails, crashes, corrupts, calls, recalled, done, corrupted>>
 
 (***************************************************************************)
 (* notifier.notifyNow, split at the receiver call                          *)
@@ -212,9 +213,10 @@ AfterCommit(p) ==
 NotifyCall(k, r) ==
     /\ k \in tasks /\ k.phase = "ready" /\ lock = None
     /\ IF <<k.s, k.t>> \notin disk.jobs
-       THEN /\ tasks' = tasks \ {k} /\ UNCHANGED calls             \* "no longer exists so done"
+       THEN /\ tasks' = tasks \ {k} /\ UNCHANGED <<calls, recalled>>  \* "no longer exists so done"
             /\ Log([a |-> "NotifyCall", s |-> k.s, t |-> k.t, res |-> "gone"])
-       ELSE /\ calls' = [calls EXCEPT ![<<k.s, k.t>>] = @ + 1]
+       ELSE /\ calls' = calls \cup {<<k.s, k.t>>}
+            /\ recalled' = IF <<k.s, k.t>> \in done THEN recalled \cup {<<k.s, k.t>>} ELSE recalled
             /\ tasks' = (tasks \ {k}) \cup {[k EXCEPT !.phase = "called", !.res = r]}
             /\ Log([a |-> "NotifyCall", s |-> k.s, t |-> k.t, res |-> r])
     /\ UNCHANGED <<disk, mem, lock, tmu, pc, arg, wbuf, todo, fails, crashes, corrupts, done, corrupted>>
@@ -233,7 +235,7 @@ NotifyMark(k) ==
                         THEN tasks \ {k}
                         ELSE (tasks \ {k}) \cup {[k EXCEPT !.phase = "ready", !.res = "none", !.att = @ - 1]}
     /\ Log([a |-> "NotifyMark", s |-> k.s, t |-> k.t, res |-> k.res])
-    /\ UNCHANGED <<mem, lock, tmu, pc, arg, wbuf, todo, fails, crashes, corrupts, calls, corrupted>>
+    /\ UNCHANGED <<mem, lock, tmu, pc, arg, wbuf, todo, fails, crashes, corrupts, calls, recalled, corrupted>>
 
 (***************************************************************************)
 (* State.WritePayload: payload of an already admitted transaction          *)
@@ -245,7 +247,7 @@ WritePayload(t) ==
        /\ disk' = [disk EXCEPT !.pay = @ \cup {t}, !.jobs = @ \cup js]
        /\ tasks' = tasks \cup FirstTasks(js)
     /\ Log([a |-> "WritePayload", t |-> t])
-    /\ UNCHANGED <<mem, lock, tmu, pc, arg, wbuf, todo, fails, crashes, corrupts, calls, done, corrupted>>
+    /\ UNCHANGED <<mem, lock, tmu, pc, arg, wbuf, todo, fails, crashes, corrupts, calls, recalled, done, corrupted>>
 
 (***************************************************************************)
 (* Crash and restart                                                       *)
@@ -260,7 +262,7 @@ Crash ==
     /\ pc' = [p \in Procs |-> "idle"]
     /\ tasks' = {[s |-> j[1], t |-> j[2], att |-> ReplayAtt(j), phase |-> "ready", res |-> "none"] : j \in disk.jobs}
     /\ Log([a |-> "Crash"])
-    /\ UNCHANGED <<disk, arg, wbuf, todo, fails, corrupts, calls, done, corrupted>>
+    /\ UNCHANGED <<disk, arg, wbuf, todo, fails, corrupts, calls, recalled, done, corrupted>>
 
 (***************************************************************************)
 (* XOR tree corruption (environment) and xorTreeRepair.checkPage           *)
@@ -273,18 +275,20 @@ Corrupt(pg, g) ==
     /\ disk' = [disk EXCEPT !.xor = SymDiff(@, {g})]
     /\ corrupted' = corrupted \cup {pg}
     /\ Log([a |-> "Corrupt", pg |-> pg, g |-> g])
-    /\ UNCHANGED <<lock, tmu, pc, arg, wbuf, todo, fails, crashes, tasks, calls, done>>
+    /\ UNCHANGED <<lock, tmu, pc, arg, wbuf, todo, fails, crashes, tasks, calls, recalled, done>>
 
 CheckPage(pg) ==
     /\ lock = None /\ corrupted # {} /\ pg \in Pages
     /\ LET calc == disk.txs \cap OnPage(pg) IN
+       \* the code compares the IN-MEMORY leaf with the recalculated one
        IF mem.xor \cap OnPage(pg) = calc
        THEN UNCHANGED <<mem, disk>>
        ELSE /\ mem' = [mem EXCEPT !.xor = (@ \ OnPage(pg)) \cup calc]
             /\ disk' = [disk EXCEPT !.xor = (@ \ OnPage(pg)) \cup calc]
-    /\ corrupted' = corrupted \ {pg}
+    /\ corrupted' = IF mem'.xor \cap OnPage(pg) = disk'.txs \cap OnPage(pg) /\ disk'.xor \cap OnPage(pg) = disk'.txs \cap OnPage(pg)
+                    THEN corrupted \ {pg} ELSE corrupted
     /\ Log([a |-> "CheckPage", pg |-> pg])
-    /\ UNCHANGED <<lock, tmu, pc, arg, wbuf, todo, fails, crashes, corrupts, tasks, calls, done>>
+    /\ UNCHANGED <<lock, tmu, pc, arg, wbuf, todo, fails, crashes, corrupts, tasks, calls, recalled, done>>
 
 Next ==
     \/ \E p \in Procs, t \in Tx, pl \in PayloadKinds : Offer(p, t, pl)
@@ -316,7 +320,7 @@ AdmissionSound ==
 \* jobs/digests only for stored transactions ("a rejected transaction leaves no trace")
 NoTraceOfRejected ==
     /\ \A j \in disk.jobs : j[2] \in disk.txs
-    /\ \A j \in Subs \X Tx : calls[j] > 0 => j[2] \in disk.txs
+    /\ \A j \in calls : j[2] \in disk.txs
 \* the stored set only grows, and only by the transaction being committed
 StoredGrowsOnly == [][disk.txs \subseteq disk'.txs]_vars
 
@@ -332,6 +336,8 @@ DerivedOK ==
         /\ disk.n = Cardinality(disk.txs)
         /\ disk.lcHigh = MaxLc(disk.txs) /\ mem.lcHigh = MaxLc(disk.txs)
         /\ (disk.txs # {} => disk.head \in ArgMaxLc(disk.txs))
+\* memory and disk agree when nobody is writing, so checking the in-memory leaf is as good as checking the stored one
+MemDiskAgree == Quiescent => mem.xor = disk.xor /\ mem.iblt = disk.iblt
 \* repair touches only the page it checks
 RepairLocal ==
     [][\A pg \in Pages : (corrupted' = corrupted \ {pg} /\ corrupted' # corrupted) =>
@@ -345,8 +351,8 @@ Selected(j) == \/ SubType(j[1]) = "transaction" /\ j[2] \in disk.txs /\ Selects(
 JobKept == \A j \in Subs \X Tx : Selected(j) /\ j \notin done => j \in disk.jobs
 FailedVisible == \A j \in disk.jobs : TRUE   \* visibility is a pure function of retries (checked on the code)
 \* completion recorded => the receiver is not invoked again for that event
-FinishedNotRecalled == [][\A j \in done : calls'[j] = calls[j]]_vars
-NeverDeliveredUnlessAdmitted == \A j \in Subs \X Tx : calls[j] > 0 => Selected(j) \/ j \in done
+FinishedNotRecalled == recalled = {}
+NeverDeliveredUnlessAdmitted == \A j \in calls : Selected(j)
 \* liveness: every selected event is completed, fatally refused, or has used up its budget
 Settled(j) == j \in done \/ disk.retries[j] >= Budget
 EventuallySettled == \A j \in Subs \X Tx : (Selected(j) ~> Settled(j))
